@@ -24,10 +24,13 @@
        on_pipeline_complete callbacks only (C14_pipeline_complete_comes_last);
      - on_node_start comes first for each node: every body invocation -- first attempt or retry, in any iteration of a recurrent
        subgraph -- comes after every manager's on_node_start for that node (C14_node_start_comes_before_the_body).
+     - a node's value is stored -- hence can reach a consumer, the artifact store or the caller -- only after every manager
+       has been told on_node_complete(node, error=None) (C14_values_are_stored_after_node_complete; "value": not a contained
+       failure, which inside a one-of scope is stored as a result and was reported with on_node_complete(error); "node": not the
+       synthetic head of a one-of, whose result is the winning candidate's).
    Kind F (all PLAIN programs, same managers and schedules):
-     - a node's value is never delivered before its successful on_node_complete: a result is stored only after every
-       manager has been told on_node_complete(node, error=None), and a body is invoked only after every manager has seen the
-       successful on_node_complete of each of its inputs (C14_on_plain_programs_values_follow_node_complete).
+     - a body is invoked only after every manager has seen the successful on_node_complete of each of its inputs
+       (C14_on_plain_programs_values_follow_node_complete).
    Decided on the implementation only (oracle on the merged event / body trace, every run): the identity of the PipelineResult
    object, the exact order start -> (complete(err))* -> final complete within one execution, and value-after-complete on
    programs that are not plain. *)
@@ -67,7 +70,7 @@ Proof. vm_compute. repeat split; reflexivity. Qed.
 
 (* ---- kind G (all programs) and kind F (all plain programs), all schedules, non-raising managers ---------------------------- *)
 From MLPE Require Import Proofs.PlainWorld Proofs.PlainLive Proofs.PlainCore Proofs.PlainDeadlock Proofs.PlainEvents Proofs.PlainNodeStart Proofs.PlainPipe Proofs.PlainQuiet
-     Proofs.PipeAll Proofs.QuietAll Proofs.NodeStartAll.
+     Proofs.PipeAll Proofs.QuietAll Proofs.NodeStartAll Proofs.ValuesAll.
 
 Definition managers_do_not_raise (P : prog) : Prop := forall m ev n k, p_mgr_fault P m ev n k = false.
 
@@ -98,6 +101,17 @@ Theorem C14_node_start_comes_before_the_body :
       exists nd, real_index nd = i /\ forall m, m < p_mgrs P -> In (start_ev m nd) b.
 Proof. exact bodies_start_after_node_start_all_programs. Qed.
 Print Assumptions C14_node_start_comes_before_the_body.
+
+(* the storing of a value (not a contained failure) as the result of a node (not a one-of head) comes after every manager's
+   on_node_complete(node, error=None) *)
+Theorem C14_values_are_stored_after_node_complete :
+  forall P, managers_do_not_raise P ->
+  forall st, reachable P st ->
+    forall a b n v, st_trace st = a ++ OSetResult n v :: b -> is_exn v = false ->
+      is_head (b_graph (build (p_decls P) (p_inp P) (p_out P))) n = false ->
+      forall m, m < p_mgrs P -> In (done_ev m n) b.
+Proof. exact values_are_stored_after_node_complete_all_programs. Qed.
+Print Assumptions C14_values_are_stored_after_node_complete.
 
 (* [cnt (is_ps m)] / [cnt (is_pc m)] count the on_pipeline_start / on_pipeline_complete callbacks of manager m in the history *)
 Theorem C14_pipeline_events :
